@@ -152,11 +152,14 @@ def arms_without_site(F, fn, variant):
 
 
 @rule('C09', 'contract-table', configs=('default', 'p256'))
-def contract_table(ctx):
+def contract_table(ctx, only=None):
     F = ctx.F
     CG = lib.CallGraph(F)
     n = 0
+    only_re = re.compile(only) if only else None
     for (fn, variant, k, doc) in CONTRACT:
+        if only_re is not None and not only_re.search(fn):
+            continue
         if fn not in F.bodies:
             ctx.bad(fn, 'anchor-missing', 'function %s named by the contract table is gone' % fn)
             continue
@@ -175,6 +178,8 @@ def contract_table(ctx):
                   'operation now succeeds silently' % (fn, got, variant or 'a dictionary error', k, doc),
                   '%d site(s)' % got, F.bodies[fn].where())
     for (entry, callee) in REACH:
+        if only_re is not None and not only_re.search(entry):
+            continue
         if entry not in F.bodies or callee not in F.bodies:
             ctx.bad(entry, 'anchor-missing', '%s or %s is gone' % (entry, callee))
             continue
@@ -182,10 +187,10 @@ def contract_table(ctx):
         ctx.check(callee in CG.reachable([entry]), entry, 'reaches %s' % callee.split('::')[-1],
                   '%s no longer reaches %s, whose documented failure therefore cannot surface' % (entry, callee),
                   'reachable', F.bodies[entry].where())
-    ctx.floor(n, 35, 'contract rows')
+    ctx.floor(n, 35 if only_re is None else 8, 'contract rows')
     # the error produced by each documented check is propagated to the caller of the family root
     for (fn, variant, k, doc) in CONTRACT:
-        if fn not in F.bodies or variant is None:
+        if fn not in F.bodies or variant is None or (only_re is not None and not only_re.search(fn)):
             continue
         body = F.bodies[fn]
         if not lib.returns_result(body) and 'Iterator' not in body.locals[0]['ty'] and 'impl ' not in body.locals[0]['ty']:
@@ -315,7 +320,9 @@ def delegated(ctx):
     (C08.verify-first: verify accepts only on the equal edge, before anything else happens), and encapsulation for
     published rights succeeds (C11.selection: the all-hybridized flag is cleared only by a non-hybridized key, so the
     internal 'all subkeys should be hybridized' error of h_encaps is unreachable)."""
-    from . import c08, c11
+    from . import c08, c11, c06
+    # "encapsulation for a disabled attribute fails": nothing is published for a right whose newest secret is deactivated
+    c06.publish_guard(ctx)
     c08.verify_first(ctx)
     # "refresh ... fails for a forged user key": the MAC it is checked against covers id, rights and secrets
     c08.mac_covers(ctx)
